@@ -35,11 +35,13 @@ def build_heads(rng, n):
         iv = v if rng.random() < 0.8 else 3 - v
         t, k = [(1, 1), (0, 0), (1, 0), (0, 1)][i % 4]
         base = rng.choice([0, 0, 7, 1000])
-        cnt = rng.choice([1, 2, 3, 4])
+        # every fifth head has times that go back and forth (the index timestamp is the running maximum)
+        nonmono = i % 4 == 2 or i % 5 == 1
+        cnt = rng.choice([3, 4, 5]) if nonmono else rng.choice([1, 2, 3, 4])
         tcur = rng.randrange(0, 1000)
         msgs = []
         for j in range(cnt):
-            tcur += rng.choice([0, 1, 5])
+            tcur = max(0, tcur + (rng.choice([-9, -4, -2, 3, 6]) if nonmono else rng.choice([0, 1, 5])))
             msgs.append('%d|%d|%s|%s' % (base + j * rng.choice([1, 1, 2]) if j else base, tcur,
                                          codec.rnd_bytes(rng, rng.choice([0, 1, 3, 8])),
                                          codec.rnd_bytes(rng, rng.choice([0, 2, 5, 12, 30]))))
@@ -119,7 +121,7 @@ def damages(rng, s, tier):
 
 def c07_extra(pid, tier, seed):
     rng = random.Random(codec.kv_seed(seed, 'c07'))
-    heads = build_heads(rng, 4 if tier == 'quick' else 60)
+    heads = build_heads(rng, 6 if tier == 'quick' else 60)
     lines, kinds = [], {}
     for s in heads:
         for kind, L, I in damages(rng, s, tier):
